@@ -1565,6 +1565,32 @@ def c18_families(tier, seed, ids=None):
                     items = [first, src, count, geng, genr, block(body), block(body)]
                 gu.append(mk(ids, items, {"giveup": gname, "after": after, "where": where}))
     out.append(("suspended generators' parameters and locals after iterator contexts were given up", gu, ("value", "residue")))
+    # which frame a name lives in: function literals nested 2 to 4 deep, a name declared (as parameter or local) at one level and read by the
+    # innermost function, frames of different widths in between, and a global of the same name that is rewritten between two calls.  Own
+    # frame and the immediately enclosing function's frame are the only frames a function sees; anything further out is the global.
+    nf = []
+    for depth in (2, 3, 4):
+        for level in range(0, depth + 1):            # 0: declared nowhere (global only)
+            for how in ("param", "local"):
+                for pads in ((0, 0, 0, 0), (2, 0, 1, 0), (0, 3, 0, 2), (1, 1, 4, 0)):
+                    if level == 0 and how == "local":
+                        continue
+                    if tier == "quick" and shash((depth, level, how, pads, seed)) % 3 != 0 and not (depth == 3 and level == 1):
+                        continue
+                    inner = None
+                    for lv in range(depth, 0, -1):
+                        params = ["nv"] if (lv == level and how == "param") else ["p" + "abcd"[lv - 1]]
+                        body = [assign("q" + "abcd"[lv - 1] + "xyzw"[k], bin_("+", I(lv * 10), I(k))) for k in range(pads[lv - 1])]
+                        if lv == level and how == "local":
+                            body.append(assign("nv", bin_("+", I(lv), I(0))))
+                        if inner is None:
+                            body.append(lst([N("nv"), N("nv")]))
+                        else:
+                            body += [assign("fn" + "abcd"[lv], inner), call("fn" + "abcd"[lv], I(lv * 7))]
+                        inner = fn(params, block(body))
+                    items = [assign("nv", I(100)), assign("fna", inner), call("fna", I(5)), assign("nv", I(200)), call("fna", I(6)), call("deep", I(150)) if False else N("nv")]
+                    nf.append(mk(ids, items, {"nested-frames": [depth, level, how, list(pads)]}))
+    out.append(("which frame a name lives in: nesting depth x declaring level x frame widths", nf, ("value", "residue")))
     return out
 
 
